@@ -43,6 +43,21 @@ def match_output(data, recs):
     return [exp.get((n, s, q), -1) for n, s, q in outs]
 
 
+def prefix_of_big(data):
+    """records of the big input are named b<i>: output must be b0, b1, ... in order (content checked by length rule -u 2)"""
+    try:
+        fmt, outs = parse_records(data)
+    except Exception:
+        return [-1]
+    res = []
+    for n, s, q in outs:
+        try:
+            res.append(int(n.split()[0][1:]) if len(s) == len(q or "") else -1)
+        except ValueError:
+            res.append(-1)
+    return res
+
+
 def damage_cases(ctx, recs, paired_recs=None):
     """Yield (description, bytes1, bytes2 or None, container_ok, gz)."""
     rng = ctx.rng
@@ -82,6 +97,12 @@ def damage_cases(ctx, recs, paired_recs=None):
             elif kind == "seq-longer":
                 ls[b + 1] = ls[b + 1] + "A"
             cases.append((f"record {rec_i}: {kind}", ("\n".join(ls) + "\n").encode(), None, True, False))
+    # a larger gzip file truncated behind the first block: the failure is detected by the reader process
+    # while chunks are already being processed (not at format detection)
+    big = make_input(rng, 400, tag="b")
+    bgz = gzip.compress(fastq_bytes(big), mtime=0)
+    for p in sorted(rng.sample(range(len(bgz) // 2, len(bgz)), 4 if ctx.quick else 25)) + [len(bgz) - 4]:
+        cases.append((f"truncate big gzip at byte {p}", bgz[:p], None, False, True))
     # undamaged and empty input (controls: exit 0, complete output)
     cases.append(("undamaged", data, None, True, False))
     cases.append(("empty file", b"", None, True, False))
@@ -118,7 +139,7 @@ def run(ctx):
             if paired:
                 inputs["in2.fastq"] = d2
             for cores in ((1, 2, 3) if not ctx.quick else (1, rng.choice((2, 3)))):
-                bs = rng.choice((130, 200, 100000))
+                bs = rng.choice((130, 200, 100000)) if "big" not in desc else rng.choice((2000, 5000))
                 argv = ["-u", "2"] + (["-U", "2", "-o", "o1.fastq", "-p", "o2.fastq", in1, "in2.fastq"] if paired
                                       else ["-o", "o1.fastq", in1])
                 if cores > 1:
@@ -135,7 +156,7 @@ def run(ctx):
                     deadlock, log, seed, w = None, [], 0, None
                 e = dict(id=len(events), desc=desc, cores=cores, argv=" ".join(argv), paired=paired,
                          container_ok=container_ok,
-                         lines1=split_lines(d1) if not gz else split_lines(fastq_bytes(recs)),
+                         lines1=split_lines(d1) if not gz else ([] if "big" in desc else split_lines(fastq_bytes(recs))),
                          lines2=split_lines(d2) if paired else [],
                          hung=bool(deadlock))
                 if res is None or deadlock:
@@ -146,7 +167,8 @@ def run(ctx):
                     # an uncaught exception ends the real program with a traceback on stderr and exit
                     # status 1: a visible failure (counted separately in the evidence)
                     e.update(exit=(res.exit if not crashed else 1), message=bool(res.errors) or crashed,
-                             out1=match_output(res.files.get("o1.fastq", b"") or b"", recs),
+                             out1=(prefix_of_big(res.files.get("o1.fastq", b"") or b"") if "big" in desc else
+                                   match_output(res.files.get("o1.fastq", b"") or b"", recs)),
                              out2=match_output(res.files.get("o2.fastq", b"") or b"", recs2) if paired else [])
                     if crashed:
                         e["crash"] = repr(res.exception)
